@@ -56,3 +56,78 @@ def _(self, index, value):
             self.g_items[old(len(self.g_items))].g_indent == old(ite(len(self.g_items) > 0, self.g_items[0].g_indent, self._default_indent_getter))))
     # no existing item changes its indentation or its key
     ensures(forall(lambda k: implies(0 <= k and k < old(len(self.g_items)), self.g_items[k] == old(self.g_items[k])), self.g_items[k]))
+
+# ================================================================ the raw mapping view (RepeatedRawMetaItemWrapper): dictionary access by key over the item list (C10, C09)
+@contract('RepeatedFilteredNodeWrapper.__getitem__')
+def _(self, index):
+    requires(self != None and self.g_items != None and 0 <= index and index < len(self.g_items))
+    modifies()
+    ensures(result is self.g_items[index])
+
+@contract('RepeatedFilteredNodeWrapper.__setitem__')
+def _(self, index, value):
+    requires(self != None and self.g_items != None and 0 <= index and index < len(self.g_items) and value != None)
+    modifies('list[MetaItem]@self.g_items')
+    ensures(len(self.g_items) == old(len(self.g_items)) and self.g_items[index] is value
+            and forall(lambda k: implies(0 <= k and k < len(self.g_items) and k != index, self.g_items[k] == old(self.g_items[k])), self.g_items[k]))
+
+@contract('RepeatedFilteredNodeWrapper.__delitem__')
+def _(self, index):
+    requires(self != None and self.g_items != None and 0 <= index and index < len(self.g_items))
+    modifies('list[MetaItem]@self.g_items')
+    ensures(len(self.g_items) == old(len(self.g_items)) - 1
+            and forall(lambda k: implies(0 <= k and k < len(self.g_items), self.g_items[k] == sel(old(elems(self.g_items)), ite(k < index, k, k + 1))), self.g_items[k]))
+
+@macro
+def Items(s):
+    return s != None and s.g_items != None and forall(lambda k: implies(0 <= k and k < len(s.g_items), s.g_items[k] != None), s.g_items[k])
+
+@macro
+def HasKey(s, key):
+    return exists(lambda k: 0 <= k and k < len(s.g_items) and s.g_items[k].g_key == key)
+
+@macro
+def FirstAt(s, key, i):      # i is the position of the first item with that key
+    return 0 <= i and i < len(s.g_items) and s.g_items[i].g_key == key and forall(lambda j: implies(0 <= j and j < i, s.g_items[j].g_key != key), s.g_items[j])
+
+@contract('RepeatedRawMetaItemWrapper.__getitem__')
+def _(self, index):
+    types(index='str')
+    requires(Items(self))
+    modifies()
+    raises('KeyError', when=not HasKey(self, index))
+    invariant(0, forall(lambda j: implies(0 <= j and j < K, self.g_items[j].g_key != index), self.g_items[j]))
+    ensures(exists(lambda i: FirstAt(self, index, i) and result is self.g_items[i]))
+
+@contract('RepeatedRawMetaItemWrapper.__contains__')
+def _(self, item):
+    types(item='str')
+    requires(Items(self))
+    modifies()
+    invariant(0, forall(lambda j: implies(0 <= j and j < K, self.g_items[j].g_key != item), self.g_items[j]))
+    ensures(result == HasKey(self, item))
+
+# mapping[key] = item: the first item with that key is replaced in place (same position, everything else untouched); without one the item is appended
+@contract('RepeatedRawMetaItemWrapper.__setitem__')
+def _(self, index, value):
+    types(index='str', value='MetaItem')
+    requires(Items(self) and value != None)
+    modifies('list[MetaItem]@self.g_items')
+    invariant(0, forall(lambda j: implies(0 <= j and j < K, self.g_items[j].g_key != index), self.g_items[j]) and len(self.g_items) == pre(len(self.g_items)) and elems(self.g_items) == pre(elems(self.g_items)) and self.g_items is pre(self.g_items)
+                 and forall(lambda o: len(as_list(o, 'MetaItem')) == pre(len(as_list(o, 'MetaItem'))) and elems(as_list(o, 'MetaItem')) == pre(elems(as_list(o, 'MetaItem')))))
+    ensures(implies(old(HasKey(self, index)), len(self.g_items) == old(len(self.g_items))
+                    and exists(lambda i: old(FirstAt(self, index, i)) and self.g_items[i] is value and forall(lambda k: implies(0 <= k and k < len(self.g_items) and k != i, self.g_items[k] == old(self.g_items[k])), self.g_items[k]))))
+    ensures(implies(not old(HasKey(self, index)), len(self.g_items) == old(len(self.g_items)) + 1 and self.g_items[old(len(self.g_items))] is value
+                    and forall(lambda k: implies(0 <= k and k < old(len(self.g_items)), self.g_items[k] == old(self.g_items[k])), self.g_items[k])))
+
+# del mapping[key]: exactly the first item with that key goes, the others keep their order; a missing key is refused with nothing changed
+@contract('RepeatedRawMetaItemWrapper.__delitem__')
+def _(self, index):
+    types(index='str')
+    requires(Items(self))
+    modifies('list[MetaItem]@self.g_items')
+    raises('KeyError', 'list[MetaItem]', when=not HasKey(self, index))
+    invariant(0, forall(lambda j: implies(0 <= j and j < K, self.g_items[j].g_key != index), self.g_items[j]) and len(self.g_items) == pre(len(self.g_items)) and elems(self.g_items) == pre(elems(self.g_items)) and self.g_items is pre(self.g_items)
+                 and forall(lambda o: len(as_list(o, 'MetaItem')) == pre(len(as_list(o, 'MetaItem'))) and elems(as_list(o, 'MetaItem')) == pre(elems(as_list(o, 'MetaItem')))))
+    ensures(len(self.g_items) == old(len(self.g_items)) - 1
+            and exists(lambda i: old(FirstAt(self, index, i)) and forall(lambda k: implies(0 <= k and k < len(self.g_items), self.g_items[k] == sel(old(elems(self.g_items)), ite(k < i, k, k + 1))), self.g_items[k])))
